@@ -259,6 +259,7 @@ func TestAuto(t *testing.T) {
 		c := genCase(t)
 		st.Journal(map[string]any{"kind": "auto", "case": c})
 		if err := runCase(c, st); err != nil {
+			ev.G().PinLast()
 			t.Fatalf("C07 violated: %v", err)
 		}
 	})
@@ -268,11 +269,12 @@ func TestKnownAndRegressions(t *testing.T) {
 	st := ev.G()
 	// self veto of an already active Auto state must not cancel the other called Auto states
 	c := Case{
-		Schema: gen.Schema{States: []gen.StateDef{{Name: "S0", Auto: true}, {Name: "S1", Auto: true, Require: []string{"S2"}}, {Name: "S2"}, {Name: "S3"}}},
-		Table: gen.Table{Bindings: []gen.Binding{{Handlers: []gen.HandlerSpec{{Name: "S0S0", Veto: []bool{true}}}}}},
+		Schema:  gen.Schema{States: []gen.StateDef{{Name: "S0", Auto: true}, {Name: "S1", Auto: true, Require: []string{"S2"}}, {Name: "S2"}, {Name: "S3"}}},
+		Table:   gen.Table{Bindings: []gen.Binding{{Handlers: []gen.HandlerSpec{{Name: "S0S0", Veto: []bool{true}}}}}},
 		History: []gen.Step{{Op: "add", States: []string{"S3"}}, {Op: "add", States: []string{"S2"}}},
 	}
 	if err := runCase(c, st); err != nil {
+		ev.G().PinLast()
 		t.Fatalf("C07 violated (regression self-veto): %v", err)
 	}
 }
@@ -298,6 +300,7 @@ func TestReplay(t *testing.T) {
 		t.Fatal(err)
 	}
 	if err := runCase(c, nil); err != nil {
+		ev.G().PinLast()
 		t.Fatalf("C07 violated: %v", err)
 	}
 }
